@@ -140,9 +140,20 @@ func verifC10_cancel() {
 	vInstallRand()
 	t := vNewTransport(nil)
 	t.endMode = vEndBlock
-	which := vChoose("call", 5)
+	which := vChoose("call", 6)
 	if which == 1 || which == 2 {
 		t.writeBlock = true
+	}
+	if which == 5 {
+		// a read that has to answer a Ping while the peer does not read: the Pong write blocks inside the read call
+		p := vFrame{fin: true, opcode: 9, masked: !client, payload: vBytes("pingp", vChoose("plen", 2))}
+		if p.masked {
+			copy(p.key[:], vBytes("key", 4))
+		}
+		t = vNewTransport(vEncodeFrame(p))
+		t.endMode = vEndBlock
+		t.writeBlock = true
+		vReach("C10.cancel.blocked-pong")
 	}
 	c := vNewConn(t, client, nil, 32, 64)
 	ctx, cancel := context.WithCancel(vBG)
@@ -158,7 +169,7 @@ func verifC10_cancel() {
 	start := vGhostElapsed()
 	var err error
 	switch which {
-	case 0:
+	case 0, 5:
 		_, _, err = c.Reader(ctx)
 	case 1:
 		err = c.Write(ctx, MessageBinary, vBytes("w", 2))
@@ -220,4 +231,44 @@ func verifC10_cancel() {
 	vAssert(c.CloseNow() != nil || true, "C10.cancel.closenow")
 	vAssert(vGhostGoroutines() == 0, "C10.cancel.no-goroutines")
 	vObserve("cancel", which, err != nil)
+}
+
+// C10.pipelined: two messages sent back to back reach the endpoint in two segments, the first ending anywhere inside the
+// first message (inside its header, between header and payload, inside the payload), the second carrying the rest and
+// the whole second message. The first read succeeds; cancelling its context afterwards is harmless: the connection stays
+// open and a read with a fresh context returns the second message.
+func verifC10_pipelined() {
+	client := vParam("client", 1) == 1
+	vInstallRand()
+	n1 := 1 + vChoose("n1", 3)
+	m1, m2 := vBytes("m1", n1), vBytes("m2", 1+vChoose("n2", 4))
+	frames := vDataFrames(m1, nil, 2, false, client)
+	frames = append(frames, vDataFrames(m2, nil, 1, false, client)...)
+	wire := vEncodeFrames(frames)
+	firstLen := len(vEncodeFrame(frames[0]))
+	t := vNewTransport(wire)
+	t.endMode = vEndBlock
+	t.first = 1 + vChoose("seg1", firstLen) // 1..len(first frame): where the first segment ends
+	c := vNewConn(t, client, nil, 32, 64)
+	ctx1, cancel1 := context.WithCancel(vBG)
+	var b1 []byte
+	var err1 error
+	if vChoose("api", 2) == 0 {
+		_, b1, err1 = c.Read(ctx1)
+	} else {
+		var r io.Reader
+		_, r, err1 = c.Reader(ctx1)
+		if err1 == nil {
+			b1, err1 = vReadAll(r, 1+vChoose("buf", 2)*3)
+		}
+	}
+	vReach("C10.pipelined.first-read")
+	vAssert(vAnd(err1 == nil, vEqBytes(b1, m1)), "C10.pipelined.first-read-ok")
+	cancel1()
+	vGhostSettle()
+	vAssert(vIsOpen(c), "C10.pipelined.still-open-after-cancel")
+	typ, b2, err2 := c.Read(vBG)
+	vAssert(vAnd(err2 == nil, vAnd(typ == MessageText, vEqBytes(b2, m2))), "C10.pipelined.second-read-ok")
+	c.CloseNow()
+	vObserve("pipelined", t.first, len(b1), err2 == nil)
 }
